@@ -58,11 +58,14 @@ def gen_spec(ch, *, max_nodes=6, splits=True, nested=True, dups=True, depth=0, p
         else:
             out_shape = "list" if nd["kind"] == "list" else "scalar"
         if dups and nodes and nd["kind"] == "tok" and not nd["split"] and ch.choose(8, "dup") == 0:
-            # same identity as an earlier plain node: same label and same inputs
-            cands = [m for m in nodes if m["kind"] == "tok" and not m["split"] and not m["combine"]]
+            # same identity as an earlier plain node (or nested workflow): same label/sub-spec and same inputs
+            cands = [m for m in nodes if m["kind"] in ("tok", "wf") and not m["split"] and not m["combine"]]
             if cands:
                 m = cands[ch.choose(len(cands), "dup-of")]
                 nd["label"] = m["label"]
+                nd["kind"] = m["kind"]
+                if m["kind"] == "wf":
+                    nd["sub"] = m["sub"]
                 nd["ins"] = dict(m["ins"])
                 nd["combine"] = None
                 vis = list(open_splits.get(m["name"], []))
@@ -72,6 +75,18 @@ def gen_spec(ch, *, max_nodes=6, splits=True, nested=True, dups=True, depth=0, p
         stateful[name] = bool(vis)
         nodes.append(nd)
     spec = {"nodes": nodes, "out": nodes[-1]["name"], "late": []}
+    return spec
+
+
+def add_dup_nested(ch, spec):
+    """two nested-workflow nodes with the same identity (same sub-spec, same inputs):
+    both are awaited inline by the async loop and contend for one PydraFileLock"""
+    sub = gen_spec(ch, max_nodes=3, splits=False, nested=False, dups=False, depth=1, prefix="dwi")
+    first = spec["nodes"][0]["name"]
+    for nm in ("dw0", "dw1"):
+        spec["nodes"].append({"name": nm, "label": "dw", "kind": "wf", "ins": {"a": ["n", first]}, "split": None, "combine": None, "sub": sub})
+    spec["nodes"].append({"name": "dwout", "label": "dwout", "kind": "tok", "ins": {"a": ["n", "dw0"], "b": ["n", "dw1"]}, "split": None, "combine": None})
+    spec["out"] = "dwout"
     return spec
 
 
